@@ -13,6 +13,7 @@ EXPLANATION = (
     "in order and last entries via back()."
     ' (R13.7) the metric works with the configured bounds themselves: VisualMetricBuilder::build hands visual_max_observations and the collect / use thresholds over unchanged, and the observation constructor stores the given quality unchanged.'
     ' (R13.8) the boxes that enter histories are the ones observed / estimated (the filter takes plain coordinates: R07.10); (R13.9) the record reads the last history entries (record wiring of C01).')
+EXPLANATION += ' R13.3 includes the share wiring of C15 (all observation boxes of the scene, share[i] to observation i); R13.7 includes VisualObservationAttributes::new / with_own_area_percentage storing quality, box and share unchanged.'
 NOT_DECIDED = ["bounds under user code that edits observations through get_mut_observations",
                "concrete gallery contents for concrete quality sequences"]
 ASSUMPTIONS = ["VecDeque / Vec / sort behave as documented", "rustc nightly MIR construction"]
@@ -33,7 +34,12 @@ def run(ctx):
     ctx.floor('R13.2', M.rule_gallery(ctx, 'R13.2'), 8)
     ctx.rule('R13.3', 'collect gate with *_collect thresholds; own-area shares computed and indexed correctly')
     ctx.rule('R13.3u', '(shared with C12) use gate and conjuncts of feature_can_be_used')
-    ctx.floor('R13.3', M.rule_collect_gate(ctx, 'R13.3', 'R13.3u'), 11)
+    n = M.rule_collect_gate(ctx, 'R13.3', 'R13.3u')
+    # the shares the collect gate reads are computed over ALL observation boxes of the scene (a detection without a feature
+    # still occludes its neighbours) and share[i] goes to observation i (clause R15.5 of C15)
+    from props import C15
+    n += C15.wiring_rule(ctx, 'R13.3')
+    ctx.floor('R13.3', n, 15)
     ctx.rule('R13.4', 'wasted-track conversions copy histories in order and last entries via back()')
     ctx.floor('R13.4', M.rule_wasted_conversions(ctx, 'R13.4'), 17)
     from props import C07, C01
@@ -48,6 +54,12 @@ def run(ctx):
     n = wiring.identity_from_self(ctx, 'R13.7', 'trackers::visual_sort::metric::builder::VisualMetricBuilder::build',
                                   'VisualMetricOptions', GALLERY_OPTS)
     n += wiring.identity_ctor(ctx, 'R13.7', 'trackers::visual_sort::VisualSortObservation::new')
+    for path_ in ('trackers::visual_sort::observation_attributes::VisualObservationAttributes::new',
+                  'trackers::visual_sort::observation_attributes::VisualObservationAttributes::with_own_area_percentage'):
+        # the quality scale is the caller's (thresholds are only required to be >= 0): a clamp to [0, 1] turns every
+        # quality of a 0..100 scale into a tie and the wrong feature is evicted
+        n += wiring.identity_ctor(ctx, 'R13.7', path_, fields=('visual_quality', 'bbox', 'own_area_percentage'),
+                                  alias={'visual_quality': 'q', 'bbox': 'b'})
     ctx.floor('R13.7', n, 8)
 
 
